@@ -45,7 +45,8 @@ RULE = ('case = one generate-input invocation; distinct by argument tuple; '
         'non-trivial = >= 2 bias ratios or a min:max:step range')
 ASSUMPTIONS = ['direction from bias ratio: r_bias = eta/(1+eta) (1 for inf), '
                'others (1-r_bias)/2 (tutorial: eta=0.5 is depolarising)']
-REQUIRED_COUNTERS = ['invocations', 'files_parsed', 'simulations_compared',
+REQUIRED_COUNTERS = ['commands_into_a_shared_directory',
+                     'invocations', 'files_parsed', 'simulations_compared',
                      'range_specs', 'multi_eta_invocations',
                      'splitting_invocations']
 
@@ -351,12 +352,78 @@ def plan(tier, seed):
     per = 10 if tier == 'quick' else 25
     tasks = [{'i': i, 'n': per, 'seed': seed, 'cost': per * 120}
              for i in range(n // per)]
+    tasks.append({'kind': 'samedir', 'cost': 300})
     tasks.append({'kind': 'ranges', 'kmax': 12 if tier == 'quick' else 60,
                   'nmax': 10 if tier == 'quick' else 40, 'cost': 500})
     return tasks
 
 
+def run_same_dir(task, out):
+    """Several generate-input commands into ONE data directory (a study
+    built up label by label): what an earlier command wrote must still be
+    there, unchanged, after the later ones."""
+    from click.testing import CliRunner
+    import panqec.cli as cli
+    base = os.environ.get('PV_WORK') or tempfile.gettempdir()
+    sequences = [
+        [('toric_xzzx', '3,10'), ('toric', '3')],
+        [('toric', '3'), ('toric_xzzx', '3,10')],
+        [('experiment_low_p', '0.5,3'), (None, '10,inf')],
+        [('a', '1'), ('ab', '1,2'), ('abc', 'inf'), ('a', '5')],
+        [('run.1', '3'), ('run', '3,10')],
+    ]
+    for seq in sequences:
+        d = tempfile.mkdtemp(prefix='c19d-', dir=base)
+        try:
+            written = {}
+            for step, (label, etas) in enumerate(seq):
+                args = ['-d', d, '--decoder_class', 'MatchingDecoder', '-s',
+                        '3x3', '--bias', 'Z', '--eta', etas, '--prob',
+                        '0.1,0.2', '--code_class', 'Toric2DCode']
+                if label:
+                    args += ['-l', label]
+                before = set(os.listdir(os.path.join(d, 'inputs'))) \
+                    if os.path.isdir(os.path.join(d, 'inputs')) else set()
+                with contextlib.redirect_stdout(io.StringIO()):
+                    res = CliRunner().invoke(cli.generate_input, args)
+                out.count('invocations')
+                out.count('commands_into_a_shared_directory')
+                desc = {'k': 'same-directory', 'sequence': seq, 'step': step}
+                if res.exit_code != 0:
+                    out.violation('generate-input/same-directory/'
+                                  'command-failed',
+                                  f'exit {res.exit_code}: {res.exception!r}',
+                                  desc)
+                    break
+                now = set(os.listdir(os.path.join(d, 'inputs')))
+                gone = sorted(f for f in written if f not in now)
+                if gone:
+                    out.violation(
+                        'generate-input/same-directory/earlier-files-removed',
+                        f'after the command with label {label!r} the '
+                        f'specification(s) {gone} written by an earlier '
+                        'command are gone', desc)
+                    break
+                for f in now - before | {f for f in now if f.startswith(
+                        label or 'experiment')}:
+                    written[f] = open(os.path.join(d, 'inputs', f),
+                                      'rb').read()
+                ne = len(etas.split(','))
+                mine = [f for f in now - before]
+                out.case(desc, True)
+                if step == 0 and len(mine) != ne:
+                    out.violation(
+                        'generate-input/same-directory/file-count',
+                        f'{len(mine)} new files for {ne} bias ratio(s)', desc)
+                    break
+        finally:
+            shutil.rmtree(d, ignore_errors=True)
+
+
 def run_task(task, out):
+    if task.get('kind') == 'samedir':
+        run_same_dir(task, out)
+        return
     if task.get('kind') == 'ranges':
         run_ranges(task, out)
     else:
